@@ -228,6 +228,39 @@ template <class I> using OtherIndex = std::conditional_t<std::is_same_v<I, int>,
 // fixes/C14_stride_rank0.patch is applied; without it rank 0 is missing, which is reported as a failure)
 template <class E> constexpr bool strideFromAny = std::is_constructible_v<S::layout_stride::mapping<E>, const S::layout_right::mapping<E>&>;
 static const char* const RANK0_MSG = "layout_stride::mapping of rank 0 cannot be constructed from another rank-0 mapping (nor default-constructed)";
+// Conversion partners of an extents type E whose dynamic extents sit at OTHER positions (and with another index type):
+//   MODE 1: every static extent becomes dynamic and every dynamic extent becomes static,
+//   MODE 2: only the first static and the first dynamic position are flipped (same rank_dynamic, other positions).
+// A dynamic position k that becomes static gets the value FLIPV[k]; the conversion is legal iff the run-time extent
+// equals it (checked by flipOk; otherwise the op violates the precondition and is answered bad-op).
+static constexpr std::size_t FLIPV[4] = {2, 3, 1, 2};
+template <class E, int MODE, class Seq = std::make_index_sequence<E::rank()>> struct FlipImpl;
+template <class I, std::size_t... X, int MODE, std::size_t... K> struct FlipImpl<S::extents<I, X...>, MODE, std::index_sequence<K...>> {
+  static constexpr std::size_t R = sizeof...(X);
+  static constexpr std::size_t at(std::size_t k) {
+    constexpr std::size_t pat[R + 1] = {X..., 0};
+    std::size_t firstStatic = R, firstDyn = R;
+    for (std::size_t q = R; q-- > 0;) {
+      if (pat[q] == D) firstDyn = q; else firstStatic = q;
+    }
+    bool flip = MODE == 1 || k == firstStatic || k == firstDyn;
+    if (!flip) return pat[k];
+    return pat[k] == D ? FLIPV[k] : D;
+  }
+  using type = S::extents<OtherIndex<I>, at(K)...>;
+};
+template <class E, int MODE> using Flip = typename FlipImpl<E, MODE>::type;
+template <class F> bool flipOk(const VL& ext) {
+  for (std::size_t r = 0; r < F::rank(); ++r)
+    if (F::static_extent(r) != D && long(F::static_extent(r)) != ext[r]) return false;
+  return true;
+}
+template <class X> VL extOf(const X& e) {
+  VL v;
+  for (std::size_t r = 0; r < X::rank(); ++r) v.push_back(long(e.extent(r)));
+  return v;
+}
+
 static Result rank0Failure() {
   Result r;
   r.impl = "uncompilable";
@@ -420,6 +453,31 @@ template <class E, class L> Result doConv(const Ctx& c) {
     return res;
    } else return rank0Failure();
   }
+  if (c.x == "flip1" || c.x == "flip2") {
+    auto run = [&](auto mode) -> Result {
+      using F = Flip<E, decltype(mode)::value>;
+      if (!flipOk<F>(c.ext)) throw BadOp{};
+      if constexpr (!isStride<L> || strideFromAny<E>) {
+        // the extents alone, there and back
+        F ef(e);
+        E eb(ef);
+        if (extOf(ef) != c.ext) orFail(res, "extents conversion", "converted extents " + listStr(extOf(ef)) + " differ from " + listStr(c.ext));
+        if (extOf(eb) != c.ext) orFail(res, "extents conversion", "extents converted back " + listStr(extOf(eb)) + " differ from " + listStr(c.ext));
+        // the mappings
+        typename L::template mapping<F> mid(m);
+        M fin(mid);
+        MapObs om = observe(mid), of = observe(fin);
+        bool eq = (ef == e) && (e == eb) && (mid.extents() == e) && (e == fin.extents());
+        res.impl = std::string("eq=") + (eq ? "true" : "false") + " mid=" + blockStr(om) + " fin=" + blockStr(of);
+        if (!eq) orFail(res, "extents conversion", "operator== false");
+        same("to flipped extents", om, c.lay, c.str);
+        same("and back", of, c.lay, c.str);
+        stat(F::rank_dynamic() == E::rank_dynamic() && E::rank_dynamic() > 0 ? "conv_flip_same_rank_dynamic" : "conv_flip_other_rank_dynamic");
+        return res;
+      } else return rank0Failure();
+    };
+    return c.x == "flip1" ? run(std::integral_constant<int, 1>{}) : run(std::integral_constant<int, 2>{});
+  }
   if (c.x == "lr") {
     if constexpr (R <= 1 && !isStride<L>) {
       using O = std::conditional_t<std::is_same_v<L, S::layout_left>, S::layout_right, S::layout_left>;
@@ -525,6 +583,26 @@ template <class MS, class E, class L, class M> MS buildMdspan(const Ctx& c, int*
   return MS(p, m);
 }
 
+// views converted to an extents type with other dynamic positions refer to the same elements and report the same extents
+template <int MODE, class E, class L, class MS>
+void flipView(const Ctx& c, const MS& ms, const int* base, const std::vector<VL>& tuples, std::map<VL, long>& exp, Result& res) {
+  using F = Flip<E, MODE>;
+  constexpr std::size_t R = E::rank();
+  if (!flipOk<F>(c.ext)) return;
+  if constexpr (!isStride<L> || strideFromAny<E>) {
+    S::mdspan<const int, F, L> mf(ms);
+    if (extOf(mf.extents()) != c.ext) orFail(res, "mdspan", "view converted to flipped extents reports extents " + listStr(extOf(mf.extents())));
+    if (long(mf.size()) != (long)tuples.size()) orFail(res, "mdspan", "view converted to flipped extents reports another size");
+    for (auto& t : tuples) {
+      const int& r = std::apply([&](auto... i) -> const int& { return mf(i...); }, toArr<typename F::index_type, R>(t));
+      if (&r != base + exp[t]) { orFail(res, "mdspan", "view converted to flipped extents refers to a different element at " + listStr(t)); break; }
+    }
+    S::mdspan<const int, E, L> back(mf);
+    if (extOf(back.extents()) != c.ext) orFail(res, "mdspan", "view converted back reports extents " + listStr(extOf(back.extents())));
+    stat("mdspan_flip_checked");
+  }
+}
+
 template <class E, class L> Result doMdspanAcc(const Ctx& c);
 
 template <class E, class L> Result doMdspan(const Ctx& c) {
@@ -571,6 +649,8 @@ template <class E, class L> Result doMdspan(const Ctx& c) {
     if (&r2 != v.data() + exp[t] || &r3 != v.data() + exp[t]) orFail(res, "mdspan", "copy/conversion refers to a different element at " + listStr(t));
     conv.push_back(r3);
   }
+  flipView<1, E, L>(c, ms, v.data(), tuples, exp, res);
+  flipView<2, E, L>(c, ms, v.data(), tuples, exp, res);
   if constexpr (R > 0)
     for (std::size_t r = 0; r < R; ++r) {
       ext.push_back(long(ms.extent(r)));
@@ -692,6 +772,31 @@ Result mdarrayBody(A& a, const M& m, const Ctx& c, const std::vector<VL>& tuples
           A other(makeExt<E>("afull", pe), a.container());
           if (other == a || a == other) orFail(res, "mdarray", "operator== true although the extents differ");
         }
+  }
+  // arrays converted to an extents type with other dynamic positions (from the array and from its view)
+  if constexpr (std::is_same_v<typename A::container_type, std::vector<int>>) {
+    auto flipArr = [&](auto mode) {
+      using F = Flip<E, decltype(mode)::value>;
+      if (!flipOk<F>(c.ext)) return;
+      S::mdarray<int, F, L> af(a);
+      S::mdarray<int, F, L> av(std::as_const(a).to_mdspan());
+      if (extOf(af.extents()) != c.ext || extOf(av.extents()) != c.ext)
+        orFail(res, "mdarray", "array converted to flipped extents reports extents " + listStr(extOf(af.extents())) + " / " + listStr(extOf(av.extents())));
+      if (std::vector<int>(af.container().begin(), af.container().end()) != after) orFail(res, "mdarray", "array converted to flipped extents has other elements");
+      for (auto& t : tuples) {
+        auto idx = toArr<typename F::index_type, R>(t);
+        if (exp[t] >= (long)after.size()) break;
+        if (&af[idx] != af.container_data() + exp[t] || af[idx] != after[exp[t]] || av[idx] != after[exp[t]]) {
+          orFail(res, "mdarray", "array converted to flipped extents holds a different element at " + listStr(t));
+          break;
+        }
+      }
+      E eb(af.extents());
+      if (extOf(eb) != c.ext) orFail(res, "mdarray", "extents converted back differ");
+      stat("mdarray_flip_checked");
+    };
+    flipArr(std::integral_constant<int, 1>{});
+    flipArr(std::integral_constant<int, 2>{});
   }
   A b(a);  // copies own their elements
   if (!(b == a)) orFail(res, "mdarray", "copy compares unequal");
@@ -1316,11 +1421,31 @@ static std::string genOne(Rng& r, const std::string& kind, const std::string& ke
   VL patv = parsePat(keyPat(key));
   std::size_t R = patv.size();
   VL ext = genExts(r, patv, maxe);
+  if ((kind == "mdspan" || kind == "mdarray") && r.coin(1, 2)) {
+    // make the conversions to the flipped extents types applicable: first dynamic extent (often all of them) as declared there
+    bool all = r.coin();
+    bool first = true;
+    for (std::size_t q = 0; q < R; ++q)
+      if (patv[q] < 0) { if (all || first) ext[q] = (long)FLIPV[q]; first = false; }
+  }
   std::ostringstream os;
   os << kind << " " << keyIt(key) << " " << keyPat(key) << " ";
   if (kind == "map") {
     std::string lay = r.pick(LAYS);
     os << lay << " " << r.pick(CTORS) << " " << listStr(ext);
+    if (lay == "stride") os << " " << listStr(genStrides(r, ext));
+  } else if (kind == "conv" && r.coin(1, 3)) {
+    // conversion to an extents type with other dynamic positions; the dynamic extents that become static must have
+    // the value the partner type declares (rarely left as they are: usually a violated precondition, bad-op)
+    int mode = r.coin() ? 1 : 2;
+    if (!r.coin(1, 12)) {
+      std::size_t firstStatic = R, firstDyn = R;
+      for (std::size_t q = R; q-- > 0;) { if (patv[q] < 0) firstDyn = q; else firstStatic = q; }
+      for (std::size_t q = 0; q < R; ++q)
+        if (patv[q] < 0 && (mode == 1 || q == firstDyn)) ext[q] = (long)FLIPV[q];
+    }
+    std::string lay = r.pick(LAYS);
+    os << lay << " flip" << mode << " " << listStr(ext);
     if (lay == "stride") os << " " << listStr(genStrides(r, ext));
   } else if (kind == "conv") {
     int k = (int)r.below(10);
